@@ -755,7 +755,9 @@ def classify(rec):
                 return 'c15.zero-activity-product'
         return None
     if kind in ('zero-when-above', 'inaccurate') and not d.get('postcondition') and d.get('underflow_product') \
-            and To and sib == 'accepted' and (d.get('overflow_ratio') or 0) > 650:
+            and To and sib == 'accepted' and 650 < (d.get('overflow_ratio') or 0) <= 709.7:
+        # (beyond ln2*To/T_half = 709.78 the reconstruction exp() overflows on the unchanged tree - that is the other
+        # finding, an OverflowError; a silent answer there is not this finding)
         # the sibling request (rest_times=[0]) is answered correctly; with this list the activity table holds a
         # short-lived product only as a denormal / zero at its smallest rest time, so the activity at removal that
         # decay_time reconstructs from the table misses it (the same loss that, a few half-lives later, makes the
